@@ -500,7 +500,7 @@ impl CheckImpl for C12 {
     }
     fn units(&self, tier: Tier, _seed: u64) -> u64 {
         match tier {
-            Tier::Quick => 48_000 / BATCH,
+            Tier::Quick => 64_000 / BATCH,
             Tier::Thorough => 320_000 / BATCH,
         }
     }
